@@ -28,6 +28,7 @@ CONSTANTS
   FailSaves = FALSE
   Focus = FALSE
   Record = FALSE
+  Scrapes = FALSE
   Marking = TRUE
   WindAt = 0
   Gaps = {}
